@@ -257,7 +257,7 @@ def eval_e2e(case, rng):
     sport = {"443": 443, "44330": 44330}.get(portkind) or rng.choice([4433, 8443, 853, rng.randrange(1024, 30000)])
     extra = ["-p", str(sport)] if portkind == "selected" else []
     if rng.random() < 0.2:
-        extra += rng.choice([["-a"], ["-m"], ["-m", f"{sport}:{rng.randrange(1, 65536)}"]])
+        extra += rng.choice([["-a"], ["-m"], ["-m", f"{sport}:{tcpcap.map_target(rng)}"]])
     if quic:
         s = quicsynth.random_qspec(rng, napp=rng.choice([3, 8]))
         conn = quicsynth.build_qconn(s, rng)
